@@ -74,6 +74,12 @@ rule("util.go", [28, 34], EQ_VAL, "mask bits that no call site uses")
 rule("application_defined.go", [53, 99], EQ_SLICE, "")
 rule("application_defined.go", [58], EQ_VAL, "a loop over zero padding octets")
 
+rule("packet.go", [64, 69], ERRVAL, "the octet count returned next to an error")
+rule("receiver_estimated_maximum_bitrate.go", [95, 107], ERRVAL, "MarshalTo's n next to an error (Marshal returns no bytes)")
+rule("receiver_estimated_maximum_bitrate.go", [207], OUT, "accepting a REMB whose always-zero media SSRC is not zero is receiver leniency; no statement forbids it")
+rule("sender_report.go", [219], EQ_DEAD, "the loop above reads exactly h.Count reports or fails")
+rule("util.go", [17], ERRVAL, "value returned with errInvalidSizeOrStartIndex")
+
 def classify(r):
     f, ln, op, orig = r["file"], r["line"], r["op"], r["orig"]
     if r["status"] == "uncovered":
